@@ -39,7 +39,7 @@ Proof.
 Qed.
 
 Lemma has_l_false h l : has_l h l = false <-> ~ In h l.
-Proof. rewrite <- has_l_In. destruct (has_l h l); split; intros; try congruence; try tauto. exfalso; apply H; reflexivity. Qed.
+Proof. rewrite <- has_l_In. destruct (has_l h l); split; intros H; congruence. Qed.
 
 Lemma has_l_cons_ne h x l : h <> x -> has_l h (x :: l) = has_l h l.
 Proof. intros. simpl. destruct (Nat.eqb_spec h x); [contradiction|reflexivity]. Qed.
@@ -210,3 +210,679 @@ Proof.
     (eexists; split; [reflexivity|]; split; [|exact O]);
     (destruct (Z.leb_spec (n - (t + 1)) 0); split; intros; try discriminate; try reflexivity; lia).
 Qed.
+
+(* ---------- transitions of the core state ---------- *)
+
+Lemma eqb_false_ne a b : a <> b -> Nat.eqb a b = false.
+Proof. intros. apply Nat.eqb_neq. assumption. Qed.
+
+Lemma lists_in_lt ls en nh k h : lists_ok ls en nh -> In h (lstk ls k) -> h < nh.
+Proof. intros [_ L] H. exact (proj1 (L _ _ H)). Qed.
+
+Lemma attachedk_true ls en k h e : alookup h en = Some (k, e) -> In h (lstk ls k) -> attachedk ls en h = true.
+Proof. intros E H. unfold attachedk. rewrite E. apply has_l_In. exact H. Qed.
+
+Lemma leb_false_lt nh h : h < nh -> (nh <=? h) = false.
+Proof. intros. apply Nat.leb_gt. assumption. Qed.
+
+(* a plain listener is called: only the call projection of its own entry grows *)
+Lemma plain_trans ls en ce nh xr ov tr h k0 c0 c k a :
+  InvC ls en ce nh xr ov tr -> alookup h en = Some (k0, SPlain c0) ->
+  InvC ls en ce nh xr ov (ACall h c k a :: tr).
+Proof.
+  intros [L P] E. split; [exact L|]. intros h'. specialize (P h').
+  destruct (Nat.eqb_spec h h') as [<-|N].
+  - destruct P as (F & X & C & Q). unfold pt_ok, obs_of in *; simpl in *. rewrite E in *.
+    split; [intros Hf; destruct (F Hf) as (H1 & _); discriminate|].
+    split; [exact X|]. split; intros; discriminate.
+  - replace (obs_of ls en ce nh xr ov (ACall h c k a :: tr) h') with (obs_of ls en ce nh xr ov tr h'); [exact P|].
+    unfold obs_of; simpl. rewrite (eqb_false_ne _ _ N). reflexivity.
+Qed.
+
+(* a CounterRemover wrapper is activated: decrement, test, remove when due, call the listener *)
+Lemma counter_trans islist ls en ce nh xr ov tr h k c n a n' due :
+  InvC ls en ce nh xr ov tr -> In h (lstk ls k) -> alookup h en = Some (k, SCounter c n) ->
+  GenAutoRemove.counter_step islist int_dec (cellk ce h) = (n', due) ->
+  InvC (if due then aset k (del_l h (lstk ls k)) ls else ls) en (aset h n' ce) nh xr
+       (if dec_overflows (cellk ce h) then h :: ov else ov) (ACall h c k a :: ATrig h a :: tr).
+Proof.
+  intros [L P] Hin E St. split; [destruct due; [apply lists_ok_del|]; exact L|].
+  intros h'. destruct (Nat.eqb_spec h' h) as [->|N].
+  - specialize (P h). assert (Att := attachedk_true _ _ _ _ _ E Hin).
+    assert (Lt := lists_in_lt _ _ _ _ _ L Hin).
+    destruct P as (F & X & C & Q). unfold pt_ok, obs_of in *; simpl in *.
+    rewrite E in *. rewrite Nat.eqb_refl. rewrite (leb_false_lt _ _ Lt) in *.
+    destruct (has_l h xr) eqn:Xr; [specialize (X eq_refl); congruence|].
+    split; [discriminate|]. split; [discriminate|]. split; [|discriminate].
+    intros k1 c1 n1 E1 R. inversion E1; subst k1 c1 n1. clear E1.
+    destruct (C _ _ _ eq_refl R) as (C1 & C2 & C3 & C4 & C5).
+    unfold counter_ok, nt in *; simpl in *.
+    assert (T : (0 <= Z.of_nat (length (trigs_of h tr)) < Z.max n 1)%Z) by (split; [lia|apply (proj1 (C4 eq_refl)); exact Att]).
+    rewrite C2 in St. destruct (counter_arith islist n _ R T) as (due' & S1 & S2 & S3).
+    rewrite S1 in St. inversion St; subst n' due'. clear St. rewrite C2, S3.
+    rewrite cellk_aset, Nat.eqb_refl.
+    split; [rewrite C1; reflexivity|]. split; [lia|]. split; [lia|]. split; [|exact C5].
+    intros _. destruct due.
+    + rewrite (attachedk_del_self _ _ _ _ _ _ L E). split; [discriminate|]. intros H.
+      assert (true = false) by (apply S2; lia). discriminate.
+    + rewrite Att. split; [intros _|reflexivity]. assert (H := proj1 S2 eq_refl). lia.
+  - replace (obs_of (if due then aset k (del_l h (lstk ls k)) ls else ls) en (aset h n' ce) nh xr
+                    (if dec_overflows (cellk ce h) then h :: ov else ov) (ACall h c k a :: ATrig h a :: tr) h')
+      with (obs_of ls en ce nh xr ov tr h'); [exact (P h')|].
+    unfold obs_of; simpl. rewrite (eqb_false_ne _ _ (not_eq_sym N)), cellk_aset, (eqb_false_ne _ _ N).
+    f_equal.
+    + destruct due; [symmetry; apply attachedk_del_other; exact N|reflexivity].
+    + destruct (dec_overflows (cellk ce h)); [symmetry; apply has_l_cons_ne; exact N|reflexivity].
+Qed.
+
+Lemma all_false_cons v l : all_false (v :: l) <-> v = false /\ all_false l.
+Proof. unfold all_false. simpl. rewrite andb_true_iff, negb_true_iff. tauto. Qed.
+
+(* a ConditionalRemover wrapper is activated: evaluate once, remove when true, call the listener *)
+Lemma cond_trans (pass : bool -> bool) ls en ce nh xr ov tr h k c p wa a (v : bool) :
+  (forall w, pass w = w) ->
+  InvC ls en ce nh xr ov tr -> In h (lstk ls k) -> alookup h en = Some (k, SCond c p wa) ->
+  InvC (if v then aset k (del_l h (lstk ls k)) ls else ls) en ce nh xr ov
+       (ACall h c k a :: ACond h p (if pass wa then Some a else None) v :: ATrig h a :: tr).
+Proof.
+  intros Pw [L P] Hin E. split; [destruct v; [apply lists_ok_del|]; exact L|].
+  intros h'. destruct (Nat.eqb_spec h' h) as [->|N].
+  - specialize (P h). assert (Att := attachedk_true _ _ _ _ _ E Hin).
+    assert (Lt := lists_in_lt _ _ _ _ _ L Hin).
+    destruct P as (F & X & C & Q). unfold pt_ok, obs_of in *; simpl in *.
+    rewrite E in *. rewrite Nat.eqb_refl. rewrite (leb_false_lt _ _ Lt) in *.
+    destruct (has_l h xr) eqn:Xr; [specialize (X eq_refl); congruence|].
+    split; [discriminate|]. split; [discriminate|]. split; [discriminate|].
+    intros k1 c1 p1 wa1 E1. inversion E1; subst k1 c1 p1 wa1. clear E1.
+    destruct (Q _ _ _ _ eq_refl) as (Q1 & Q2 & Q3 & Q4).
+    unfold cond_ok in *; simpl in *. rewrite Pw.
+    assert (AF : all_false (map snd (evals_of h tr))) by (apply (proj1 (Q4 eq_refl)); exact Att).
+    split; [rewrite Q1; reflexivity|]. split; [rewrite Q2; reflexivity|]. split; [exact AF|].
+    intros _. rewrite all_false_cons. destruct v.
+    + rewrite (attachedk_del_self _ _ _ _ _ _ L E). split; [discriminate|]. intros [H _]; discriminate.
+    + rewrite Att. split; [intros _; split; [reflexivity|exact AF]|reflexivity].
+  - replace (obs_of (if v then aset k (del_l h (lstk ls k)) ls else ls) en ce nh xr ov
+                    (ACall h c k a :: ACond h p (if pass wa then Some a else None) v :: ATrig h a :: tr) h')
+      with (obs_of ls en ce nh xr ov tr h'); [exact (P h')|].
+    unfold obs_of; simpl. rewrite (eqb_false_ne _ _ (not_eq_sym N)).
+    f_equal. destruct v; [symmetry; apply attachedk_del_other; exact N|reflexivity].
+Qed.
+
+(* an explicit remove command detaches entry b *)
+Lemma remove_trans ls en ce nh xr ov tr b k e :
+  InvC ls en ce nh xr ov tr -> In b (lstk ls k) -> alookup b en = Some (k, e) ->
+  InvC (aset k (del_l b (lstk ls k)) ls) en ce nh (b :: xr) ov tr.
+Proof.
+  intros [L P] Hin E. split; [apply lists_ok_del; exact L|].
+  intros h'. destruct (Nat.eqb_spec h' b) as [->|N].
+  - specialize (P b). assert (Lt := lists_in_lt _ _ _ _ _ L Hin).
+    destruct P as (F & X & C & Q). unfold pt_ok, obs_of in *; simpl in *.
+    rewrite Nat.eqb_refl. rewrite (leb_false_lt _ _ Lt) in *. simpl.
+    rewrite (attachedk_del_self _ _ _ _ _ _ L E).
+    split; [discriminate|]. split; [reflexivity|]. split.
+    + intros k1 c1 n1 E1 R. destruct (C _ _ _ E1 R) as (C1 & C2 & C3 & C4 & C5).
+      unfold counter_ok, nt in *; simpl in *. repeat split; try assumption; discriminate.
+    + intros k1 c1 p1 wa1 E1. destruct (Q _ _ _ _ E1) as (Q1 & Q2 & Q3 & Q4).
+      unfold cond_ok in *; simpl in *. repeat split; try assumption; discriminate.
+  - replace (obs_of (aset k (del_l b (lstk ls k)) ls) en ce nh (b :: xr) ov tr h') with (obs_of ls en ce nh xr ov tr h'); [exact (P h')|].
+    unfold obs_of. rewrite (has_l_cons_ne _ _ _ N), (attachedk_del_other _ _ _ _ _ N). reflexivity.
+Qed.
+
+(* a new entry gets the next id *)
+Lemma add_trans pf ls en ce nh xr ov tr k e :
+  place_ok pf -> InvC ls en ce nh xr ov tr ->
+  InvC (aset k (pf nh (lstk ls k)) ls) (aset nh (k, e) en)
+       (match e with SCounter _ n => aset nh n ce | _ => ce end) (S nh) xr ov tr.
+Proof.
+  intros PF [L P]. destruct L as [L1 L2].
+  assert (Fresh : ~ In nh (lstk ls k)) by (intros H; destruct (L2 _ _ H) as [H1 _]; lia).
+  destruct (PF nh (lstk ls k)) as [PF1 PF2].
+  split; [split|].
+  - intros k1. rewrite lstk_aset. destruct (Nat.eqb k1 k); [apply PF2; [apply L1|exact Fresh]|apply L1].
+  - intros k1 h. rewrite lstk_aset, alookup_aset. destruct (Nat.eqb_spec k1 k) as [->|Nk].
+    + rewrite PF1. intros [->|H].
+      * rewrite Nat.eqb_refl. split; [lia|eexists; reflexivity].
+      * destruct (L2 _ _ H) as [H1 H2]. rewrite (eqb_false_ne h nh) by lia. split; [lia|exact H2].
+    + intros H. destruct (L2 _ _ H) as [H1 H2]. rewrite (eqb_false_ne h nh) by lia. split; [lia|exact H2].
+  - intros h'. pose proof (P h') as Ph. destruct (Nat.eqb_spec h' nh) as [->|N].
+    + destruct Ph as (F & _). unfold pt_ok, obs_of in *; cbn [o_att o_ent o_cell o_fresh o_xr o_ov o_trigs o_calls o_evals] in *.
+      rewrite Nat.leb_refl in F. destruct (F eq_refl) as (F1 & F2 & F3 & F4 & F5 & F6).
+      rewrite alookup_aset, Nat.eqb_refl, F2, F3, F4, F5, F6.
+      assert (A : attachedk (aset k (pf nh (lstk ls k)) ls) (aset nh (k, e) en) nh = true).
+      { unfold attachedk. rewrite alookup_aset, Nat.eqb_refl, lstk_aset, Nat.eqb_refl. apply has_l_In. apply PF1. left; reflexivity. }
+      rewrite A. rewrite (leb_false_lt (S nh) nh) by lia.
+      split; [discriminate|]. split; [discriminate|]. split.
+      * intros k1 c1 n1 E1 R. inversion E1; subst. unfold counter_ok, nt; simpl.
+        rewrite cellk_aset, Nat.eqb_refl. destruct R. repeat split; try reflexivity; try lia.
+      * intros k1 c1 p1 wa1 E1. inversion E1; subst. unfold cond_ok; simpl. repeat split; reflexivity.
+    + assert (A : attachedk (aset k (pf nh (lstk ls k)) ls) (aset nh (k, e) en) h' = attachedk ls en h').
+      { unfold attachedk. rewrite alookup_aset, (eqb_false_ne _ _ N). destruct (alookup h' en) as [[k1 e1]|]; [|reflexivity].
+        rewrite lstk_aset. destruct (Nat.eqb_spec k1 k) as [->|]; [|reflexivity].
+        destruct (has_l h' (lstk ls k)) eqn:Hh.
+        - apply has_l_In. apply PF1. right. apply has_l_In. exact Hh.
+        - apply has_l_false. rewrite PF1. intros [H|H]; [contradiction|]. apply has_l_In in H. congruence. }
+      assert (B : cellk (match e with SCounter _ n => aset nh n ce | _ => ce end) h' = cellk ce h').
+      { destruct e; try reflexivity. rewrite cellk_aset, (eqb_false_ne _ _ N). reflexivity. }
+      destruct (Nat.leb_spec (S nh) h') as [G|G].
+      * (* still fresh *)
+        replace (obs_of (aset k (pf nh (lstk ls k)) ls) (aset nh (k, e) en) (match e with SCounter _ n => aset nh n ce | _ => ce end) (S nh) xr ov tr h')
+          with (obs_of ls en ce nh xr ov tr h'); [exact Ph|].
+        unfold obs_of. rewrite A, B, alookup_aset, (eqb_false_ne _ _ N).
+        rewrite (proj2 (Nat.leb_le nh h')) by lia. rewrite (proj2 (Nat.leb_le (S nh) h')) by lia. reflexivity.
+      * replace (obs_of (aset k (pf nh (lstk ls k)) ls) (aset nh (k, e) en) (match e with SCounter _ n => aset nh n ce | _ => ce end) (S nh) xr ov tr h')
+          with (obs_of ls en ce nh xr ov tr h'); [exact Ph|].
+        unfold obs_of. rewrite A, B, alookup_aset, (eqb_false_ne _ _ N).
+        rewrite (leb_false_lt nh h') by lia. rewrite (leb_false_lt (S nh) h') by lia. reflexivity.
+Qed.
+
+(* ---------- the invariant over arbitrary re-entrant programs ---------- *)
+
+Section Preservation.
+  Variable islist : bool.
+  Variable behav : nat -> nat -> list acmd.
+  Variable cverdict : nat -> nat -> bool.
+
+  Definition RecInv (rec : astate -> list acmd -> option astate) : Prop :=
+    forall st cs st', Inv st -> rec st cs = Some st' -> Inv st'.
+
+  Lemma passes_args_id w : GenAutoRemove.cond_passes_args islist w = w.
+  Proof. unfold GenAutoRemove.cond_passes_args. destruct islist, w; reflexivity. Qed.
+
+  Section Loops.
+    Variable rec : astate -> list acmd -> option astate.
+    Hypothesis HR : RecInv rec.
+
+    Lemma run_inner_plain_inv st h k0 c0 c k a st' :
+      Inv st -> alookup h (ents st) = Some (k0, SPlain c0) ->
+      run_inner behav rec st h c k a = Some st' -> Inv st'.
+    Proof.
+      intros I E H. unfold run_inner in H. cbv zeta in H. apply HR in H; [exact H|].
+      unfold Inv; simpl. exact (plain_trans _ _ _ _ _ _ _ _ _ _ c k a I E).
+    Qed.
+
+    Lemma activate_inv st h k a st' :
+      Inv st -> has_l h (lst_of st k) = true -> activate islist behav cverdict rec st h k a = Some st' -> Inv st'.
+    Proof.
+      intros I Hh H. apply has_l_In in Hh. unfold lst_of in Hh.
+      assert (L := proj1 I). destruct (proj2 L _ _ Hh) as [_ [e E]].
+      unfold activate in H. rewrite E in H. destruct e as [c|c n|c p wa].
+      - exact (run_inner_plain_inv _ _ _ _ _ _ _ _ I E H).
+      - (* CounterRemover: the generated facts *)
+        assert (Sh : GenAutoRemove.counter_state_shared islist = true) by (unfold GenAutoRemove.counter_state_shared; destruct islist; reflexivity).
+        assert (Rb : GenAutoRemove.counter_removes_before_call islist = true) by (unfold GenAutoRemove.counter_removes_before_call; destruct islist; reflexivity).
+        rewrite Sh, Rb in H. unfold touch_helper in H. cbv zeta in H.
+        change (cells (alog st (ATrig h a))) with (cells st) in H.
+        destruct (GenAutoRemove.counter_step islist int_dec (cellk (cells st) h)) as [n' due] eqn:St.
+        unfold finish_wrapper, run_inner in H. cbv zeta in H. apply HR in H; [exact H|].
+        pose proof (counter_trans islist _ _ _ _ _ _ _ _ _ _ _ a _ _ I Hh E St) as T.
+        unfold Inv. destruct due, (dec_overflows (cellk (cells st) h)); simpl; exact T.
+      - (* ConditionalRemover *)
+        assert (Sh : GenAutoRemove.cond_state_shared islist = true) by (unfold GenAutoRemove.cond_state_shared; destruct islist; reflexivity).
+        assert (Rb : GenAutoRemove.cond_removes_before_call islist = true) by (unfold GenAutoRemove.cond_removes_before_call; destruct islist; reflexivity).
+        rewrite Sh, Rb in H. unfold touch_helper in H. cbv zeta in H.
+        unfold finish_wrapper, run_inner in H. cbv zeta in H. apply HR in H; [exact H|].
+        match type of H with context [ACond h p _ ?v] => set (vv := v) in * end.
+        pose proof (cond_trans (GenAutoRemove.cond_passes_args islist) _ _ _ _ _ _ _ _ _ _ _ _ a vv passes_args_id I Hh E) as T.
+        unfold Inv. destruct vv; simpl; exact T.
+    Qed.
+
+    Lemma call_all_inv k a : forall todo st st',
+      Inv st -> call_all islist behav cverdict rec st k todo a = Some st' -> Inv st'.
+    Proof.
+      induction todo as [|h rest IH]; intros st st' I H; simpl in H; [inversion H; subst; exact I|].
+      destruct (has_l h (lst_of st k)) eqn:Hh; [|exact (IH _ _ I H)].
+      destruct (activate islist behav cverdict rec st h k a) as [st1|] eqn:Ea; [|discriminate].
+      exact (IH _ _ (activate_inv _ _ _ _ _ I Hh Ea) H).
+    Qed.
+
+    Lemma dispatch_inv st k a st' : Inv st -> dispatch islist behav cverdict rec st k a = Some st' -> Inv st'.
+    Proof. apply call_all_inv. Qed.
+
+    Lemma process_loop_inv : forall evs st st',
+      Inv st -> process_loop islist behav cverdict rec st evs = Some st' -> Inv st'.
+    Proof.
+      induction evs as [|[k a] rest IH]; intros st st' I H; simpl in H; [inversion H; subst; exact I|].
+      destruct (dispatch islist behav cverdict rec st k a) as [st1|] eqn:Ed; [|discriminate].
+      exact (IH _ _ (dispatch_inv _ _ _ _ I Ed) H).
+    Qed.
+
+    Lemma add_entry_inv st k e h pf : place_ok pf -> Inv st -> Inv (add_entry st k e h pf).
+    Proof.
+      intros PF I. unfold Inv, add_entry; simpl. unfold lst_of.
+      pose proof (add_trans pf _ _ _ _ _ _ _ k e PF I) as T. destruct e; exact T.
+    Qed.
+
+    Lemma step_inv st c st' : Inv st -> a_step islist behav cverdict rec st c = Some st' -> Inv st'.
+    Proof.
+      intros I H. destruct c as [pl k e h|k h|k a|k a| |h]; unfold a_step in H.
+      - destruct pl as [| |hb].
+        + inversion H; subst. apply add_entry_inv; [apply place_append|exact I].
+        + inversion H; subst. apply add_entry_inv; [apply place_prepend|exact I].
+        + destruct (alookup hb (hregs st)) as [b|]; [|inversion H; subst; apply add_entry_inv; [apply place_append|exact I]].
+          destruct (alookup b (ents st)) as [[k' e']|]; [|inversion H; subst; apply add_entry_inv; [apply place_append|exact I]].
+          destruct (Nat.eqb k' k); [|discriminate].
+          destruct (has_l b (lst_of st k)); inversion H; subst; apply add_entry_inv; try exact I; [apply place_insert|apply place_append].
+      - destruct (alookup h (hregs st)) as [b|]; [|inversion H; subst; exact I].
+        destruct (alookup b (ents st)) as [[k' e']|] eqn:E; [|inversion H; subst; exact I].
+        destruct (Nat.eqb_spec k' k) as [->|]; [|discriminate].
+        destruct (has_l b (lst_of st k)) eqn:Hb; inversion H; subst; [|exact I].
+        apply has_l_In in Hb. unfold Inv; simpl. exact (remove_trans _ _ _ _ _ _ _ _ _ _ I Hb E).
+      - exact (dispatch_inv _ _ _ _ I H).
+      - inversion H; subst. exact I.
+      - destruct (pend st) as [|ev evs]; [inversion H; subst; exact I|].
+        destruct (process_loop islist behav cverdict rec (upd_pend st []) (ev :: evs)) as [st1|] eqn:Ep; [|discriminate].
+        inversion H; subst. assert (I' : Inv (upd_pend st [])) by exact I. exact (process_loop_inv _ _ _ I' Ep).
+      - destruct (alookup h (hregs st)) as [b|]; [|inversion H; subst; exact I].
+        destruct (helper_unreferenced islist st b); inversion H; subst; exact I.
+    Qed.
+
+    Lemma seq_inv : forall cs st st', Inv st -> a_seq islist behav cverdict rec st cs = Some st' -> Inv st'.
+    Proof.
+      induction cs as [|c r IH]; intros st st' I H; simpl in H; [inversion H; subst; exact I|].
+      destruct (a_step islist behav cverdict rec st c) as [st1|] eqn:E; [|discriminate].
+      exact (IH _ _ (step_inv _ _ _ I E) H).
+    Qed.
+  End Loops.
+
+  Theorem run_inv : forall fuel, RecInv (a_run islist behav cverdict fuel).
+  Proof.
+    induction fuel as [|f IH]; intros st cs st' I H; simpl in H; [discriminate|]. exact (seq_inv _ IH _ _ _ I H).
+  Qed.
+End Preservation.
+
+(* ---------- progress: an attached wrapper is reached by every invocation of its list ---------- *)
+
+Definition Ext (st st' : astate) : Prop :=
+  (exists evs, atrace st' = evs ++ atrace st)
+  /\ (forall h, has_l h (xrem st') = false -> has_l h (xrem st) = false)
+  /\ (forall h x, alookup h (ents st) = Some x -> alookup h (ents st') = Some x).
+
+Lemma ext_refl st : Ext st st.
+Proof. split; [exists []; reflexivity|]. split; intros; assumption. Qed.
+
+Lemma ext_trans a b c : Ext a b -> Ext b c -> Ext a c.
+Proof.
+  intros ([e1 E1] & X1 & N1) ([e2 E2] & X2 & N2). split; [exists (e2 ++ e1); rewrite E2, E1, app_assoc; reflexivity|].
+  split; intros; auto.
+Qed.
+
+Lemma trigs_of_app h l1 l2 : trigs_of h (l1 ++ l2) = trigs_of h l1 ++ trigs_of h l2.
+Proof. induction l1 as [|[h' a|h' p oa v|h' c k a|b] t IH]; simpl; try exact IH; [reflexivity|]. destruct (Nat.eqb h' h); simpl; rewrite IH; reflexivity. Qed.
+
+Lemma evals_of_app h l1 l2 : evals_of h (l1 ++ l2) = evals_of h l1 ++ evals_of h l2.
+Proof. induction l1 as [|[h' a|h' p oa v|h' c k a|b] t IH]; simpl; try exact IH; [reflexivity|]. destruct (Nat.eqb h' h); simpl; rewrite IH; reflexivity. Qed.
+
+Definition ntrig (st : astate) (h : nat) : nat := length (trigs_of h (atrace st)).
+
+Lemma ext_ntrig st st' h : Ext st st' -> ntrig st h <= ntrig st' h.
+Proof. intros ([e E] & _). unfold ntrig. rewrite E, trigs_of_app, app_length. lia. Qed.
+
+Lemma ext_log st e : Ext st (alog st e).
+Proof. split; [exists [e]; reflexivity|]. split; intros; assumption. Qed.
+
+Section Progress.
+  Variable islist : bool.
+  Variable behav : nat -> nat -> list acmd.
+  Variable cverdict : nat -> nat -> bool.
+
+  Definition RecExt (rec : astate -> list acmd -> option astate) : Prop :=
+    forall st cs st', Inv st -> rec st cs = Some st' -> Ext st st'.
+
+  Definition is_wrapper (e : espec) : Prop := match e with SPlain _ => False | _ => True end.
+
+  Section Loops.
+    Variable rec : astate -> list acmd -> option astate.
+    Hypothesis HR : RecInv rec.
+    Hypothesis HE : RecExt rec.
+
+    (* an activation = a bookkeeping prefix (the wrapper's own work) followed by the listener's body *)
+    Lemma activate_pre st h k a st' :
+      Inv st -> has_l h (lst_of st k) = true -> activate islist behav cverdict rec st h k a = Some st' ->
+      exists st1 body, rec st1 body = Some st' /\ Inv st1 /\ Ext st st1
+                       /\ (forall k0 e, alookup h (ents st) = Some (k0, e) -> is_wrapper e -> ntrig st1 h = S (ntrig st h)).
+    Proof.
+      intros I Hh H. apply has_l_In in Hh. unfold lst_of in Hh.
+      assert (L := proj1 I). destruct (proj2 L _ _ Hh) as [_ [e E]].
+      unfold activate in H. rewrite E in H. destruct e as [c|c n|c p wa].
+      - unfold run_inner in H. cbv zeta in H. eexists _, _. split; [exact H|]. split; [|split].
+        + unfold Inv; simpl. exact (plain_trans _ _ _ _ _ _ _ _ _ _ c k a I E).
+        + split; [eexists [_]; reflexivity|]. split; intros; assumption.
+        + intros k0 e0 E0 W. rewrite E in E0. inversion E0; subst. destruct W.
+      - assert (Sh : GenAutoRemove.counter_state_shared islist = true) by (unfold GenAutoRemove.counter_state_shared; destruct islist; reflexivity).
+        assert (Rb : GenAutoRemove.counter_removes_before_call islist = true) by (unfold GenAutoRemove.counter_removes_before_call; destruct islist; reflexivity).
+        rewrite Sh, Rb in H. unfold touch_helper in H. cbv zeta in H.
+        change (cells (alog st (ATrig h a))) with (cells st) in H.
+        destruct (GenAutoRemove.counter_step islist int_dec (cellk (cells st) h)) as [n' due] eqn:St.
+        unfold finish_wrapper, run_inner in H. cbv zeta in H.
+        pose proof (counter_trans islist _ _ _ _ _ _ _ _ _ _ _ a _ _ I Hh E St) as T.
+        eexists _, _. split; [exact H|]. split; [|split].
+        + unfold Inv. destruct due, (dec_overflows (cellk (cells st) h)); simpl; exact T.
+        + split; [|split].
+          * destruct due, (dec_overflows (cellk (cells st) h)); simpl; eexists [_; _]; reflexivity.
+          * intros h0 X. destruct due, (dec_overflows (cellk (cells st) h)); simpl in X; exact X.
+          * intros h0 x X. destruct due, (dec_overflows (cellk (cells st) h)); simpl; exact X.
+        + intros _ _ _ _. unfold ntrig. destruct due, (dec_overflows (cellk (cells st) h)); simpl; rewrite Nat.eqb_refl; reflexivity.
+      - assert (Sh : GenAutoRemove.cond_state_shared islist = true) by (unfold GenAutoRemove.cond_state_shared; destruct islist; reflexivity).
+        assert (Rb : GenAutoRemove.cond_removes_before_call islist = true) by (unfold GenAutoRemove.cond_removes_before_call; destruct islist; reflexivity).
+        rewrite Sh, Rb in H. unfold touch_helper in H. cbv zeta in H.
+        unfold finish_wrapper, run_inner in H. cbv zeta in H.
+        match type of H with context [ACond h p _ ?v] => set (vv := v) in * end.
+        pose proof (cond_trans (GenAutoRemove.cond_passes_args islist) _ _ _ _ _ _ _ _ _ _ _ _ a vv (passes_args_id islist) I Hh E) as T.
+        eexists _, _. split; [exact H|]. split; [|split].
+        + unfold Inv. destruct vv; simpl; exact T.
+        + split; [|split].
+          * destruct vv; simpl; eexists [_; _; _]; reflexivity.
+          * intros h0 X. destruct vv; simpl in X; exact X.
+          * intros h0 x X. destruct vv; simpl; exact X.
+        + intros _ _ _ _. unfold ntrig. destruct vv; simpl; rewrite Nat.eqb_refl; reflexivity.
+    Qed.
+
+    Lemma activate_ext st h k a st' :
+      Inv st -> has_l h (lst_of st k) = true -> activate islist behav cverdict rec st h k a = Some st' -> Ext st st'.
+    Proof.
+      intros I Hh H. destruct (activate_pre _ _ _ _ _ I Hh H) as (st1 & body & R & I1 & E1 & _).
+      exact (ext_trans _ _ _ E1 (HE _ _ _ I1 R)).
+    Qed.
+
+    Lemma call_all_ext k a : forall todo st st',
+      Inv st -> call_all islist behav cverdict rec st k todo a = Some st' -> Ext st st'.
+    Proof.
+      induction todo as [|h rest IH]; intros st st' I H; simpl in H; [inversion H; subst; apply ext_refl|].
+      destruct (has_l h (lst_of st k)) eqn:Hh; [|exact (IH _ _ I H)].
+      destruct (activate islist behav cverdict rec st h k a) as [st1|] eqn:Ea; [|discriminate].
+      exact (ext_trans _ _ _ (activate_ext _ _ _ _ _ I Hh Ea) (IH _ _ (activate_inv islist behav cverdict rec HR _ _ _ _ _ I Hh Ea) H)).
+    Qed.
+
+    Lemma process_loop_ext : forall evs st st',
+      Inv st -> process_loop islist behav cverdict rec st evs = Some st' -> Ext st st'.
+    Proof.
+      induction evs as [|[k a] rest IH]; intros st st' I H; simpl in H; [inversion H; subst; apply ext_refl|].
+      destruct (dispatch islist behav cverdict rec st k a) as [st1|] eqn:Ed; [|discriminate].
+      exact (ext_trans _ _ _ (call_all_ext _ _ _ _ _ I Ed) (IH _ _ (dispatch_inv islist behav cverdict rec HR _ _ _ _ I Ed) H)).
+    Qed.
+
+    Lemma add_entry_ext st k e h pf : Inv st -> Ext st (add_entry st k e h pf).
+    Proof.
+      intros I. split; [exists []; reflexivity|]. split; [intros; assumption|].
+      intros h0 x X. unfold add_entry; simpl. rewrite alookup_aset.
+      destruct (Nat.eqb_spec h0 (nexth st)) as [->|]; [|exact X].
+      destruct (proj2 I (nexth st)) as (F & _). unfold obs_of in F; simpl in F. rewrite Nat.leb_refl in F.
+      destruct (F eq_refl) as (F1 & _). congruence.
+    Qed.
+
+    Lemma step_ext st c st' : Inv st -> a_step islist behav cverdict rec st c = Some st' -> Ext st st'.
+    Proof.
+      intros I H. destruct c as [pl k e h|k h|k a|k a| |h]; unfold a_step in H.
+      - destruct pl as [| |hb].
+        + inversion H; subst. apply add_entry_ext; exact I.
+        + inversion H; subst. apply add_entry_ext; exact I.
+        + destruct (alookup hb (hregs st)) as [b|]; [|inversion H; subst; apply add_entry_ext; exact I].
+          destruct (alookup b (ents st)) as [[k' e']|]; [|inversion H; subst; apply add_entry_ext; exact I].
+          destruct (Nat.eqb k' k); [|discriminate].
+          destruct (has_l b (lst_of st k)); inversion H; subst; apply add_entry_ext; exact I.
+      - destruct (alookup h (hregs st)) as [b|]; [|inversion H; subst; apply ext_log].
+        destruct (alookup b (ents st)) as [[k' e']|] eqn:E; [|inversion H; subst; apply ext_log].
+        destruct (Nat.eqb_spec k' k) as [->|]; [|discriminate].
+        destruct (has_l b (lst_of st k)) eqn:Hb; inversion H; subst; [|apply ext_log].
+        split; [eexists [_]; reflexivity|]. split; [|intros; assumption].
+        intros h0 X. simpl in X. apply orb_false_iff in X. exact (proj2 X).
+      - exact (call_all_ext _ _ _ _ _ I H).
+      - inversion H; subst. split; [exists []; reflexivity|]. split; intros; assumption.
+      - destruct (pend st) as [|ev evs]; [inversion H; subst; apply ext_log|].
+        destruct (process_loop islist behav cverdict rec (upd_pend st []) (ev :: evs)) as [st1|] eqn:Ep; [|discriminate].
+        inversion H; subst. assert (I' : Inv (upd_pend st [])) by exact I.
+        apply (ext_trans _ st1); [|apply ext_log].
+        destruct (process_loop_ext _ _ _ I' Ep) as (T & X & N). split; [exact T|]. split; [exact X|exact N].
+      - destruct (alookup h (hregs st)) as [b|]; [|inversion H; subst; apply ext_refl].
+        destruct (helper_unreferenced islist st b); inversion H; subst; [apply ext_refl|].
+        split; [exists []; reflexivity|]. split; intros; assumption.
+    Qed.
+
+    Lemma seq_ext : forall cs st st', Inv st -> a_seq islist behav cverdict rec st cs = Some st' -> Ext st st'.
+    Proof.
+      induction cs as [|c r IH]; intros st st' I H; simpl in H; [inversion H; subst; apply ext_refl|].
+      destruct (a_step islist behav cverdict rec st c) as [st1|] eqn:E; [|discriminate].
+      exact (ext_trans _ _ _ (step_ext _ _ _ I E) (IH _ _ (step_inv islist behav cverdict rec HR _ _ _ I E) H)).
+    Qed.
+
+    (* the invocation of the list of key k: entry h of that list, attached when the invocation
+       starts, is triggered by it unless it is detached in between — and if it is detached in
+       between by its own doing (F), it has been triggered in between *)
+    Lemma call_all_progress st0 h e k a t0 :
+      alookup h (ents st0) = Some (k, e) -> is_wrapper e ->
+      (forall sti, Inv sti -> Ext st0 sti -> has_l h (xrem sti) = false -> attached sti h = false -> t0 < ntrig sti h) ->
+      forall todo st st',
+        Inv st -> Ext st0 st -> call_all islist behav cverdict rec st k todo a = Some st' ->
+        has_l h (xrem st') = false -> t0 <= ntrig st h ->
+        In h todo \/ t0 < ntrig st h -> t0 < ntrig st' h.
+    Proof.
+      intros E W F. induction todo as [|x rest IH]; intros st st' I X0 H Xr T D; simpl in H.
+      - inversion H; subst. destruct D as [[]|D]; exact D.
+      - assert (Xs : has_l h (xrem st) = false).
+        { assert (EE := call_all_ext k a (x :: rest) st st' I). simpl in EE. exact (proj1 (proj2 (EE H)) _ Xr). }
+        destruct (has_l x (lst_of st k)) eqn:Hx.
+        + destruct (activate islist behav cverdict rec st x k a) as [st2|] eqn:Ea; [|discriminate].
+          destruct (activate_pre _ _ _ _ _ I Hx Ea) as (st1 & body & R & I1 & E1 & Tr).
+          assert (I2 := HR _ _ _ I1 R). assert (E2 := HE _ _ _ I1 R).
+          assert (X2 : Ext st0 st2) by exact (ext_trans _ _ _ X0 (ext_trans _ _ _ E1 E2)).
+          assert (M := ext_ntrig _ _ h E2). assert (M1 := ext_ntrig _ _ h E1).
+          apply (IH _ _ I2 X2 H Xr); [lia|].
+          destruct (Nat.eq_dec x h) as [->|N].
+          * right. rewrite (Tr _ _ (proj2 (proj2 X0) _ _ E) W) in M. lia.
+          * destruct D as [[D|D]|D]; [contradiction|left; exact D|right; lia].
+        + destruct (Nat.eq_dec x h) as [->|N].
+          * apply (IH _ _ I X0 H Xr T). right. apply (F _ I X0 Xs).
+            unfold attached, attachedk. rewrite (proj2 (proj2 X0) _ _ E). exact Hx.
+          * apply (IH _ _ I X0 H Xr T). destruct D as [[D|D]|D]; [contradiction|left; exact D|right; exact D].
+    Qed.
+  End Loops.
+
+  Theorem run_ext : forall fuel, RecExt (a_run islist behav cverdict fuel).
+  Proof.
+    induction fuel as [|f IH]; intros st cs st' I H; simpl in H; [discriminate|].
+    exact (seq_ext _ (run_inv islist behav cverdict f) IH _ _ _ I H).
+  Qed.
+
+  (* once detached without an explicit remove, a wrapper has been triggered since it was last seen attached *)
+  Lemma detached_means_triggered st0 sti h k e :
+    Inv st0 -> Inv sti -> Ext st0 sti -> alookup h (ents st0) = Some (k, e) ->
+    match e with SCounter _ n => in_range n | _ => True end -> is_wrapper e ->
+    attached st0 h = true -> has_l h (xrem sti) = false -> attached sti h = false -> ntrig st0 h < ntrig sti h.
+  Proof.
+    intros I0 Ii X E R W A0 Xi Ai.
+    assert (X0 : has_l h (xrem st0) = false) by exact (proj1 (proj2 X) _ Xi).
+    assert (Ei := proj2 (proj2 X) _ _ E).
+    assert (M := ext_ntrig _ _ h X).
+    destruct (proj2 I0 h) as (_ & _ & C0 & Q0). destruct (proj2 Ii h) as (_ & _ & Ci & Qi).
+    unfold obs_of in *; simpl in *. destruct e as [c|c n|c p wa]; [destruct W| |].
+    - destruct (C0 _ _ _ E R) as (_ & _ & _ & C4 & _). destruct (Ci _ _ _ Ei R) as (_ & _ & _ & D4 & _).
+      unfold nt in *; simpl in *. unfold attached in *.
+      assert (T0 := proj1 (C4 X0) A0).
+      destruct (Z_lt_ge_dec (Z.of_nat (length (trigs_of h (atrace sti)))) (Z.max n 1)) as [G|G].
+      + rewrite (proj2 (D4 Xi) G) in Ai. discriminate.
+      + unfold ntrig. lia.
+    - destruct (Q0 _ _ _ _ E) as (_ & Q2 & _ & Q4). destruct (Qi _ _ _ _ Ei) as (_ & P2 & _ & P4).
+      simpl in *. unfold attached in *.
+      assert (AF := proj1 (Q4 X0) A0).
+      assert (L0 : length (evals_of h (atrace st0)) = ntrig st0 h).
+      { unfold ntrig. rewrite <- (map_length fst), Q2, map_length. reflexivity. }
+      assert (Li : length (evals_of h (atrace sti)) = ntrig sti h).
+      { unfold ntrig. rewrite <- (map_length fst), P2, map_length. reflexivity. }
+      destruct X as ([evs Tr] & _).
+      destruct (Nat.eq_dec (ntrig st0 h) (ntrig sti h)) as [Eq|Ne]; [|lia].
+      exfalso. rewrite Tr, evals_of_app in Li, P4. rewrite app_length in Li.
+      assert (Z : evals_of h evs = []) by (destruct (evals_of h evs); [reflexivity|simpl in Li; lia]).
+      rewrite Z in P4. simpl in P4. rewrite (proj2 (P4 Xi) AF) in Ai. discriminate.
+  Qed.
+
+  Theorem dispatch_reaches_attached fuel st k a st' h e :
+    Inv st -> dispatch islist behav cverdict (a_run islist behav cverdict fuel) st k a = Some st' ->
+    alookup h (ents st) = Some (k, e) ->
+    match e with SCounter _ n => in_range n | _ => True end -> is_wrapper e ->
+    attached st h = true -> has_l h (xrem st') = false -> ntrig st h < ntrig st' h.
+  Proof.
+    intros I H E R W A Xr. unfold dispatch in H.
+    apply (call_all_progress _ (run_inv islist behav cverdict fuel) (run_ext fuel) st h e k a (ntrig st h) E W) with (todo := lst_of st k) (st := st);
+      try assumption; [|apply ext_refl|lia|].
+    - intros sti Ii Xi Xs Ai. exact (detached_means_triggered _ _ _ _ _ I Ii Xi E R W A Xs Ai).
+    - left. unfold attached, attachedk in A. rewrite E in A. apply has_l_In. exact A.
+  Qed.
+End Progress.
+
+(* ---------- the statements of C16 ---------- *)
+
+Section Statements.
+  Variable islist : bool.
+  Variable behav : nat -> nat -> list acmd.
+  Variable cverdict : nat -> nat -> bool.
+
+  Lemma reachable_inv fuel prog st : a_run islist behav cverdict fuel a_init prog = Some st -> Inv st.
+  Proof. intros H. exact (run_inv islist behav cverdict fuel _ _ _ inv_init H). Qed.
+
+  Theorem counter_remover_exact fuel prog st h k c n :
+    a_run islist behav cverdict fuel a_init prog = Some st ->
+    alookup h (ents st) = Some (k, SCounter c n) -> (int_min < n <= int_max)%Z ->
+    let t := Z.of_nat (length (trigs_of h (atrace st))) in
+    calls_of h (atrace st) = map (fun a => (c, k, a)) (trigs_of h (atrace st))
+    /\ (t <= Z.max n 1)%Z
+    /\ (has_l h (xrem st) = false -> (attached st h = true <-> (t < Z.max n 1)%Z))
+    /\ (has_l h (xrem st) = true -> attached st h = false)
+    /\ cellk (cells st) h = (n - t)%Z
+    /\ has_l h (ovfs st) = false.
+  Proof.
+    intros H E R. destruct (proj2 (reachable_inv _ _ _ H) h) as (_ & X & C & _).
+    unfold obs_of in *; simpl in *. destruct (C _ _ _ E R) as (C1 & C2 & C3 & C4 & C5).
+    unfold nt in *; simpl in *. repeat split; try assumption; apply C4; assumption.
+  Qed.
+
+  Theorem conditional_remover_exact fuel prog st h k c p wa :
+    a_run islist behav cverdict fuel a_init prog = Some st ->
+    alookup h (ents st) = Some (k, SCond c p wa) ->
+    let verdicts := map snd (evals_of h (atrace st)) in          (* newest first *)
+    calls_of h (atrace st) = map (fun a => (c, k, a)) (trigs_of h (atrace st))
+    /\ map fst (evals_of h (atrace st)) = map (fun a => (p, if wa then Some a else None)) (trigs_of h (atrace st))
+    /\ all_false (tl verdicts)
+    /\ (has_l h (xrem st) = false -> (attached st h = true <-> all_false verdicts))
+    /\ (has_l h (xrem st) = true -> attached st h = false).
+  Proof.
+    intros H E. destruct (proj2 (reachable_inv _ _ _ H) h) as (_ & X & _ & Q).
+    unfold obs_of in *; simpl in *. destruct (Q _ _ _ _ E) as (Q1 & Q2 & Q3 & Q4).
+    repeat split; try assumption; apply Q4; assumption.
+  Qed.
+
+  Theorem attached_wrapper_is_triggered fuel prog st fuel' k a st' h e :
+    a_run islist behav cverdict fuel a_init prog = Some st ->
+    a_run islist behav cverdict (S fuel') st [ADispatch k a] = Some st' ->
+    alookup h (ents st) = Some (k, e) ->
+    match e with SPlain _ => False | SCounter _ n => (int_min < n <= int_max)%Z | SCond _ _ _ => True end ->
+    attached st h = true -> has_l h (xrem st') = false ->
+    length (trigs_of h (atrace st)) < length (trigs_of h (atrace st')).
+  Proof.
+    intros H H' E R A X. simpl in H'.
+    destruct (dispatch islist behav cverdict (a_run islist behav cverdict fuel') st k a) as [s1|] eqn:D; [|discriminate].
+    inversion H'; subst s1.
+    apply (dispatch_reaches_attached islist behav cverdict fuel' st k a st' h e (reachable_inv _ _ _ H) D E); try assumption;
+      destruct e; try exact R; try exact I; destruct R.
+  Qed.
+End Statements.
+
+(* ---------- the helper object's lifetime ---------- *)
+
+Definition is_drop (c : acmd) : bool := match c with ADropHelper _ => true | _ => false end.
+Definition strip_drops (cs : list acmd) : list acmd := filter (fun c => negb (is_drop c)) cs.
+
+Section Helper.
+  Variable islist : bool.
+  Variable behav : nat -> nat -> list acmd.
+  Variable cverdict : nat -> nat -> bool.
+  Let behav' (c n : nat) : list acmd := strip_drops (behav c n).
+
+  Lemma helper_unreferenced_true st b : helper_unreferenced islist st b = true.
+  Proof.
+    unfold helper_unreferenced, GenAutoRemove.counter_state_shared, GenAutoRemove.cond_state_shared.
+    destruct (alookup b (ents st)) as [[k [c|c n|c p wa]]|]; destruct islist; reflexivity.
+  Qed.
+
+  Section Loops.
+    Variables rec rec' : astate -> list acmd -> option astate.
+    Hypothesis HRR : forall st cs, rec st cs = rec' st (strip_drops cs).
+
+    Lemma run_inner_eq st h c k a : run_inner behav rec st h c k a = run_inner behav' rec' st h c k a.
+    Proof. unfold run_inner. apply HRR. Qed.
+
+    Lemma finish_wrapper_eq rbc due st h c k0 k a :
+      finish_wrapper behav rec rbc due st h c k0 k a = finish_wrapper behav' rec' rbc due st h c k0 k a.
+    Proof. unfold finish_wrapper. rewrite !run_inner_eq. reflexivity. Qed.
+
+    Lemma activate_eq st h k a :
+      activate islist behav cverdict rec st h k a = activate islist behav' cverdict rec' st h k a.
+    Proof.
+      unfold activate. destruct (alookup h (ents st)) as [[k0 [c|c n|c p wa]]|]; [apply run_inner_eq| | |reflexivity].
+      - cbv zeta. destruct (GenAutoRemove.counter_step islist int_dec _) as [n' due]. apply finish_wrapper_eq.
+      - cbv zeta. apply finish_wrapper_eq.
+    Qed.
+
+    Lemma call_all_eq k a : forall todo st,
+      call_all islist behav cverdict rec st k todo a = call_all islist behav' cverdict rec' st k todo a.
+    Proof.
+      induction todo as [|h rest IH]; intros st; simpl; [reflexivity|].
+      destruct (has_l h (lst_of st k)); [|apply IH]. rewrite activate_eq.
+      destruct (activate islist behav' cverdict rec' st h k a); [apply IH|reflexivity].
+    Qed.
+
+    Lemma process_loop_eq : forall evs st,
+      process_loop islist behav cverdict rec st evs = process_loop islist behav' cverdict rec' st evs.
+    Proof.
+      induction evs as [|[k a] rest IH]; intros st; simpl; [reflexivity|].
+      unfold dispatch. rewrite call_all_eq. destruct (call_all islist behav' cverdict rec' st k (lst_of st k) a); [apply IH|reflexivity].
+    Qed.
+
+    Lemma step_eq st c : is_drop c = false ->
+      a_step islist behav cverdict rec st c = a_step islist behav' cverdict rec' st c.
+    Proof.
+      destruct c; intros D; try discriminate D; unfold a_step; try reflexivity.
+      - unfold dispatch. apply call_all_eq.
+      - destruct (pend st) as [|ev evs]; [reflexivity|]. rewrite process_loop_eq. reflexivity.
+    Qed.
+
+    Lemma drop_noop st h : a_step islist behav cverdict rec st (ADropHelper h) = Some st.
+    Proof. simpl. destruct (alookup h (hregs st)); [rewrite helper_unreferenced_true|]; reflexivity. Qed.
+
+    Lemma seq_eq : forall cs st,
+      a_seq islist behav cverdict rec st cs = a_seq islist behav' cverdict rec' st (strip_drops cs).
+    Proof.
+      induction cs as [|c r IH]; intros st; [reflexivity|].
+      destruct (is_drop c) eqn:D.
+      - destruct c; try discriminate. change (a_seq islist behav cverdict rec st (ADropHelper h :: r))
+          with (match a_step islist behav cverdict rec st (ADropHelper h) with Some s1 => a_seq islist behav cverdict rec s1 r | None => None end).
+        rewrite drop_noop. unfold strip_drops; simpl. apply IH.
+      - unfold strip_drops; simpl. rewrite D; simpl. rewrite (step_eq _ _ D).
+        destruct (a_step islist behav' cverdict rec' st c); [apply IH|reflexivity].
+    Qed.
+  End Loops.
+
+  Theorem helper_lifetime_irrelevant : forall fuel st prog,
+    a_run islist behav cverdict fuel st prog = a_run islist behav' cverdict fuel st (strip_drops prog).
+  Proof.
+    induction fuel as [|f IH]; intros st prog; [reflexivity|]. simpl. apply seq_eq. exact IH.
+  Qed.
+End Helper.
+
+(* ---------- trigger count INT_MIN: the decrement overflows ---------- *)
+
+Definition int_min_prog : list acmd :=
+  [AAdd PAppend 0 (SCounter 1 int_min) 0; ADispatch 0 5%Z; ADispatch 0 6%Z; ADispatch 0 7%Z].
+
+(* promised: max(INT_MIN, 1) = 1 call.  The model (wrap-around semantics for the undefined
+   decrement) records the overflow, leaves the wrapper attached and calls the listener on
+   every trigger. *)
+Lemma counter_int_min_refuted :
+  exists islist fuel st,
+    a_run islist (fun _ _ => []) (fun _ _ => false) fuel a_init int_min_prog = Some st
+    /\ alookup 0 (ents st) = Some (0, SCounter 1 int_min)
+    /\ Z.max int_min 1 = 1%Z
+    /\ has_l 0 (ovfs st) = true
+    /\ attached st 0 = true
+    /\ length (calls_of 0 (atrace st)) = 3
+    /\ cellk (cells st) 0 = (int_max - 2)%Z.
+Proof. exists true, 2. eexists. split; [vm_compute; reflexivity|]. vm_compute. repeat split; reflexivity. Qed.
